@@ -416,6 +416,66 @@ theorem closest_run (e : PEnv S D) (hirr : ∀ a, e.lt a a = false)
     rw [hu, ← List.append_assoc]
     exact h2
 
+/-! ## an added state reaches the solution update (local part) -/
+
+/-- the worker a step belongs to -/
+def PStep.thread : PStep S → Nat
+  | .nearest t _ => t
+  | .check t => t
+  | .add t => t
+  | .upd t => t
+
+omit [DecidableEq S] in
+theorem loc_other (e : PEnv S D) (a : PStep S) (t : Nat) (h : a.thread ≠ t) (s : PStore S D) :
+    (PStep.apply e a s).loc t = s.loc t := by
+  cases a with
+  | nearest u x => simp only [PStep.apply]; exact setLoc_other _ _ (by simpa [PStep.thread] using h.symm)
+  | check u => simp only [PStep.apply]; exact setLoc_other _ _ (by simpa [PStep.thread] using h.symm)
+  | add u =>
+    simp only [PStep.apply]
+    split
+    · exact setLoc_other _ _ (by simpa [PStep.thread] using h.symm)
+    · rfl
+  | upd u =>
+    simp only [PStep.apply]
+    split
+    · split
+      · rfl
+      · split
+        · rfl
+        · split <;> rfl
+    · rfl
+
+omit [DecidableEq S] in
+theorem loc_run_others (e : PEnv S D) (l : List (PStep S)) (t : Nat) (h : ∀ a ∈ l, a.thread ≠ t) (s : PStore S D) :
+    (runSteps (PStep.apply e) l s).loc t = s.loc t := by
+  induction l generalizing s with
+  | nil => rfl
+  | cons a l ih =>
+    rw [runSteps_cons, ih (fun b hb => h b (List.mem_cons_of_mem _ hb)), loc_other e a t (h a List.mem_cons_self)]
+
+omit [DecidableEq S] in
+theorem updatedCands_append (e : PEnv S D) (l₁ l₂ : List (PStep S)) (s : PStore S D) :
+    updatedCands e (l₁ ++ l₂) s = updatedCands e l₁ s ++ updatedCands e l₂ (runSteps (PStep.apply e) l₁ s) := by
+  induction l₁ generalizing s with
+  | nil => simp [updatedCands, runSteps]
+  | cons a l ih => simp [updatedCands, ih, runSteps_cons, List.append_assoc]
+
+omit [DecidableEq S] in
+/-- worker `t` adds its candidate, other workers do whatever they do, worker `t` reaches its update: the added state is
+among the updated ones -/
+theorem added_then_updated (e : PEnv S D) (t : Nat) (l : List (PStep S)) (hl : ∀ a ∈ l, a.thread ≠ t) (s : PStore S D)
+    (hok : (s.loc t).ok = true) :
+    (s.loc t).cand ∈ updatedCands e ([PStep.add t] ++ l ++ [PStep.upd t]) s := by
+  rw [List.append_assoc, updatedCands_append, updatedCands_append]
+  refine List.mem_append_right _ (List.mem_append_right _ ?_)
+  have hadd : (PStep.apply e (.add t) s).loc t = { s.loc t with added := true } := by
+    simp [PStep.apply, hok, setLoc_same]
+  have hloc : (runSteps (PStep.apply e) l (runSteps (PStep.apply e) [PStep.add t] s)).loc t = { s.loc t with added := true } := by
+    rw [loc_run_others e l t hl]
+    simpa [runSteps] using hadd
+  simp [updatedCands, hloc]
+
 /-! ## the concrete nearest-neighbour answer is a tree node (discharges `hsel` for the environment `drv_conc` runs) -/
 
 theorem nearestFrom_mem (x best : Vec) (bd : Float) (ns : List Vec) : nearestFrom x best bd ns ∈ best :: ns := by
